@@ -10,7 +10,7 @@ import (
 // Gen derives the plan of run `seed`.
 func Gen(prop, tier string, seed uint64) *kernel.Plan {
 	g := kernel.NewRng(seed).Derive("plan")
-	kind := []string{"counter", "counter", "map", "list"}[g.Intn(4)]
+	kind := []string{"counter", "counter", "map", "list", "doc"}[g.Intn(5)]
 	cfg := Config{Kind: kind, Sched: g.U64()}
 	cfg.Realtime = g.Chance(1, 3) || prop == "C18"
 	nTasks := g.Range(2, 4)
@@ -41,6 +41,12 @@ func Gen(prop, tier string, seed uint64) *kernel.Plan {
 					}
 					return Ev{Task: t, Op: "put", K: fmt.Sprintf("k%d", g.Intn(2)), V: fmt.Sprintf("v%d", vn)}
 				}
+				if kind == "doc" {
+					if g.Chance(1, 3) {
+						return Ev{Task: t, Op: "dget"}
+					}
+					return Ev{Task: t, Op: "dput", K: fmt.Sprintf("k%d", g.Intn(3)), V: fmt.Sprintf("v%d", vn)}
+				}
 				switch g.Intn(5) {
 				case 0:
 					return Ev{Task: t, Op: "ldel"}
@@ -61,7 +67,9 @@ func Gen(prop, tier string, seed uint64) *kernel.Plan {
 				} else {
 					for k := g.Range(1, 3); k > 0; k-- {
 						b := mk()
-						if b.Op == "mget" || b.Op == "rm" || b.Op == "get" || b.Op == "ldel" || b.Op == "lget" {
+						if kind == "doc" {
+							b = Ev{Task: t, Op: "dput", K: fmt.Sprintf("k%d", g.Intn(3)), V: fmt.Sprintf("v%d", vn)}
+						} else if b.Op == "mget" || b.Op == "rm" || b.Op == "get" || b.Op == "ldel" || b.Op == "lget" {
 							b = Ev{Task: t, Op: "put", K: fmt.Sprintf("k%d", g.Intn(2)), V: fmt.Sprintf("v%d", vn)}
 							if kind == "list" {
 								b = Ev{Task: t, Op: "ins", V: fmt.Sprintf("e%d", vn)}
